@@ -24,7 +24,7 @@ ASSUMPTIONS = [
 ]
 TIERS = {
     "quick": {"shards": 16, "cases": 3200, "timeout": 300},
-    "thorough": {"shards": 16, "cases": 160000, "timeout": 3000},
+    "thorough": {"shards": 16, "cases": 3000000, "timeout": 3000},
 }
 FLOORS = {
     "quick": {"counts": {"reports_delivered": 20000, "readings_compared": 150000,
